@@ -32,3 +32,6 @@ Check (C17_clocks_round_trip : (forall b script m0 ops, build b script = inl m0 
   decode64 (encode64 (m_cur_vpts (fst (run m0 ops)))) = m_cur_vpts (fst (run m0 ops)) /\
   decode64 (encode64 (m_cur_apts (fst (run m0 ops)))) = m_cur_apts (fst (run m0 ops)))%type).
 Check (C17_alias_script_same_builder : (forall l, run_builder (map alias_bop l) = run_builder l)%type).
+Check (C17_any_two_benign_sinks_agree : (forall b script1 script2 m1 m2 ops,
+  benign script1 -> benign script2 -> build b script1 = inl m1 -> build b script2 = inl m2 ->
+  snd (run m1 ops) = snd (run m2 ops) /\ sink_of (fst (run m1 ops)) = sink_of (fst (run m2 ops)))%type).
